@@ -51,6 +51,7 @@ class SpecWorker:
         self.quota_time = None
         self.executed = []         # (job, i)
         self.status = None
+        self.wtrace = []           # worker-local trace (conformance, L1)
 
     @property
     def alive(self):
@@ -212,6 +213,7 @@ class Env:
                         lost_at=self.world.now)
         w.phase = 'dead'
         w.status = status
+        w.wtrace.append(('exit', status, bool(notice)))
         vos.proc_exit(w.pid, status)
 
     @property
@@ -606,6 +608,7 @@ class Env:
             except BaseException:          # noqa -- as Worker.workloop does
                 result = (False, ExceptionInfo())
         w.executed.append((job, i))
+        w.wtrace.append(('task', bool(result[0])))
         if job < len(self.jobs):
             self.jobs[job]['parts'].setdefault(i, {}).update(
                 state='done', pid=pid, ok=result[0])
@@ -1035,7 +1038,7 @@ def explore_config(cfg):
     max_states = cfg.get('max_states')
     res = dict(states=0, transitions=0, max_depth=0, violations=[],
                outcomes=collections.Counter(), capped=False, samples=[],
-               events=collections.Counter(), settled=0)
+               events=collections.Counter(), settled=0, wtraces=set())
     env = build(cfg, [])
     seen = {env.canon()}
     env.teardown()
@@ -1101,6 +1104,8 @@ def explore_config(cfg):
                                 else env._flag(r)
                     res['outcomes'][repr(tuple(
                         env.outcome(r) for r in env.jobs))[:300]] += 1
+                    for w_ in env.workers.values():
+                        res['wtraces'].add((w_.maxtasks, tuple(w_.wtrace)))
                     if env.violation:
                         report(h2 + [(('settle',), ())], env)
                         if stop and not env.signature:
@@ -1112,6 +1117,7 @@ def explore_config(cfg):
 
 def _done(res, seen):
     res['states'] = len(seen)
+    res['wtraces'] = sorted(res['wtraces'], key=repr)
     res['outcomes'] = dict(res['outcomes'])
     res['events'] = dict(res['events'])
     return res
